@@ -45,9 +45,11 @@ def run_control(c, chk):
             return {"name": c["name"], "status": "error", "why": "mutant does not compile: %s" % str(ex)[-600:]}
         from rules.facts import Facts
         f = Facts(path)
-        m = importlib.import_module("rules." + c["rule"])
-        r = m.run(f, c.get("prop")) if getattr(m, "WANTS_PROP", False) else m.run(f)
-        rs = r if isinstance(r, list) else [r]
+        rs = []
+        for rn in c["rule"].split(","):        # "r_a6,r_a8": several rules judge the same edit (silence controls)
+            m = importlib.import_module("rules." + rn)
+            r = m.run(f, c.get("prop")) if getattr(m, "WANTS_PROP", False) else m.run(f)
+            rs += r if isinstance(r, list) else [r]
         keys = [v["key"] for x in rs for v in x.violations]
         if c.get("expect_silent"):
             # behaviour-preserving (or still property-satisfying) edit: the rule must stay quiet
@@ -72,7 +74,7 @@ def main():
     if want:
         specs = [c for c in specs if c["name"] in want]
     if rules is not None:
-        specs = [c for c in specs if c["rule"] in rules]
+        specs = [c for c in specs if set(c["rule"].split(",")) & set(rules)]
     chk = load_check()
     chk.ensure_driver()
     results = []
